@@ -224,7 +224,7 @@ pub fn c04(r: &mut Rng, t: u32, n: usize) -> Vec<Value> {
     let mut v = vec![];
     while v.len() < n {
         maybe_set(r, t, &mut v, 4);
-        match r.below(14) {
+        match r.below(15) {
             0 | 1 | 2 => {
                 let nn = r.below(19) as u32;
                 if let Some((x, p, y, q)) = div_case(r, nn) {
@@ -245,6 +245,16 @@ pub fn c04(r: &mut Rng, t: u32, n: usize) -> Vec<Value> {
                 let xc = base + match r.below(3) { 0 => 0, 1 => 1, _ => yc - 1 };
                 let (xc, yc) = sign2(r, xc, yc);
                 v.push(bin(t, "div_rounded", dj(xc, p as u8), "dec", dj(yc, q as u8), "dec", nn as i64, r.below(4)));
+            }
+            13 => {
+                if let Some((a, k, mm)) = knuth_shifted(r) {
+                    // n + q - p = k with p = 0: choose q <= 18, n = k - q <= 18
+                    let q = (k.saturating_sub(18)).max(r.below(19) as u32).min(18).min(k);
+                    let nn = k - q;
+                    if nn > 18 { continue; }
+                    let (a, mm) = sign2(r, a, mm);
+                    v.push(bin(t, "div_rounded", dj(a, 0), "dec", dj(mm, q as u8), "dec", nn as i64, r.below(4)));
+                }
             }
             12 => {
                 let (p, q) = (r.below(19) as u8, r.below(19) as u8);
@@ -327,8 +337,8 @@ pub fn c05(r: &mut Rng, t: u32, n: usize) -> Vec<Value> {
                 let sh = 1 + r.below(38) as u32;
                 let f = r.below(19) as i64;
                 let unit = p10(sh);
-                let hmax = MAXC / unit - 1;
-                let head = if hmax <= 0 { 0 } else { match r.below(3) { 0 => r.below(3) as i128, 1 => hmax - r.below(2) as i128, _ => ((r.u128() >> 1) as i128) % (hmax + 1) } };
+                let hmax = MAXC / unit;
+                let head = if hmax <= 1 { r.below(2) as i128 } else { match r.below(3) { 0 => r.below(3) as i128, 1 => hmax - r.below(2) as i128, _ => ((r.u128() >> 1) as i128) % (hmax + 1) } };
                 let half = unit / 2;
                 let rem = match r.below(6) { 0 => 0, 1 => 1, 2 => half - 1, 3 => half, 4 => half + 1, _ => unit - 1 };
                 let c = neg1!(r, (head * unit).saturating_add(rem).min(MAXC));
@@ -815,6 +825,20 @@ pub fn c16(r: &mut Rng, t: u32, n: usize) -> Vec<Value> {
             6 => MAXC - r.below(10) as i128,
             _ => ((r.u128() >> (1 + r.below(126))) as i128).max(1),
         };
+        if r.below(4) == 0 {
+            // Knuth-D adversarial operands: quotient digit estimates too large, partial remainder on the 2^64 boundary
+            if r.bool() {
+                if let Some((a, b, mm)) = knuth_i256(r) {
+                    let (a, b) = sign2(r, a, b);
+                    v.push(json!({"ev": "wide", "t": t, "op": "i256_div_mod_floor", "a": num(a), "b": num(b), "k": 0, "m": num(mm), "mode": mode}));
+                }
+            } else if let Some((a, k, mm)) = knuth_shifted(r) {
+                let a = neg1!(r, a);
+                let op = if r.bool() { "i128_shifted_div_mod_floor" } else { "i128_shifted_div_rounded" };
+                v.push(json!({"ev": "wide", "t": t, "op": op, "a": num(a), "b": num(0), "k": k, "m": num(mm), "mode": mode}));
+            }
+            continue;
+        }
         if r.below(5) == 0 {
             // structured 2^i 5^j m operands and divisors: sparse quotient digits, exact wide divisions
             let (pa, pb) = (pow25(r), pow25(r));
